@@ -63,6 +63,23 @@ func init() {
 	})
 }
 
+func maxprog(h *harnessSpec) *harnessSpec { h.maximalProgress = true; return h }
+
+func init() {
+	pkgRC := modulePath + "/lambda/rapidcore"
+	checkRegistry = append(checkRegistry, &checkSpec{
+		id: "C10", level: "other",
+		quick: []*harnessSpec{
+			maxprog(hs(pkgRC, "VerifC10TwoCallers", 2, "two concurrent callers of the real Server.Invoke + a following sequential one; stub sandbox; all schedules with <=2 delays", "refused", "both-served-sequentially")),
+		},
+		thorough: []*harnessSpec{
+			maxprog(hs(pkgRC, "VerifC10TwoCallers", 3, "as quick with <=3 delays", "refused", "both-served-sequentially")),
+		},
+		assume:  []string{"stub sandbox: init succeeds, the runtime answers each dispatched invocation", "timers fire only when no thread can run (maximal progress)", "context switches only at synchronisation operations"},
+		outside: []string{"a third concurrent caller", "arrival during a timeout reset (covered by C05's harness)", "HTTP front end mapping to 400"},
+	})
+}
+
 func findCheck(id string) *checkSpec {
 	for _, c := range checkRegistry {
 		if c.id == id {
